@@ -23,7 +23,7 @@ META = dict(
               "nondeterministic end of file at every line boundary and with one numeric field replaced by a malformed "
               "text (non-numeric, empty, absurdly large count); a cut inside a line (prefix of 1 character, 25 / 50 / 60 / 70 / 80 / 90 % and all but "
               "the last character; 3 positions for fixtures longer than 30 lines) and one deleted / duplicated / swapped line, both at 10 line positions spread over the "
-              "file; content that is not text (every byte >= 0x80; one "
+              "file; one integer field of the first 400 lines (counts first: integers on lines with '=' or alone on a line; 10 fields) replaced by n-2, n+2 or 10n+3; content that is not text (every byte >= 0x80; one "
               "undecodable byte at four offsets) as a real file; explicit and name-derived format selection; when a LoadError gives a line number it equals an "
               "independent count of the lines handed out minus the lines pushed back",
         thorough="the first 400 lines of every fixture (quick: 60): a cut at each of these line boundaries, in-line cuts and line "
@@ -54,6 +54,20 @@ def _consistent(d):
                 continue
             if isinstance(v, np.ndarray) and n is not None and (v.ndim == 0 or len(v) != n):
                 return False, f"{dname}[{k!r}] has {v.shape} for {n} atoms"
+    # integrals over one basis: square matrices / four-index arrays of one common size
+    sizes = set()
+    for k, v in (d.one_ints or {}).items():
+        if isinstance(v, np.ndarray):
+            if v.ndim != 2 or v.shape[0] != v.shape[1]:
+                return False, f"one_ints[{k!r}] has shape {v.shape}"
+            sizes.add(v.shape[0])
+    for k, v in (d.two_ints or {}).items():
+        if isinstance(v, np.ndarray):
+            if v.ndim != 4 or len(set(v.shape)) != 1:
+                return False, f"two_ints[{k!r}] has shape {v.shape}"
+            sizes.add(v.shape[0])
+    if len(sizes) > 1:
+        return False, f"integral arrays of different basis sizes {sorted(sizes)}"
     if d.athessian is not None and n is not None and d.athessian.shape != (3 * n, 3 * n):
         return False, "athessian"
     if d.mo is not None and d.obasis is not None and d.mo.coeffs is not None:
@@ -64,6 +78,11 @@ def _consistent(d):
     if d.cube is not None and d.cube.data.ndim != 3:
         return False, "cube"
     return True, None
+
+
+def corpus_is_pua(ch):
+    from symx import tokens as T
+    return T.is_pua(ch)
 
 
 def _is_symbolic(a):
@@ -268,6 +287,31 @@ def _h_parser_body(ctx, api, mods, fmt, fn, many, fault, lines, text, explicit, 
                 elif k + 1 < n:
                     tl = tl[:k] + [tl[k + 1], tl[k]] + tl[k + 2:]
                 t2 = "".join(tl)
+        elif fault == "count":
+            # one integer field (a count, an index, a size) replaced by a smaller or larger integer
+            import re as _re3
+            ints = [m for m in _re3.finditer(r"(?<![\w.+-])\d+(?![\w.])", t2) if not any(corpus_is_pua(ch) for ch in m.group(0))]
+            if not ints:
+                return
+            # counts and sizes first: integers on lines with '=' or standing alone on their line; then a spread over the rest
+            def _line_of(mm):
+                a = t2.rfind("\n", 0, mm.start()) + 1
+                b = t2.find("\n", mm.end())
+                return t2[a:b if b >= 0 else len(t2)]
+            prio = [k for k, mm in enumerate(ints) if "=" in _line_of(mm) or _line_of(mm).split() == [mm.group(0)]]
+            nprio, nrest = (6, 4) if ctx.tier == "quick" else (30, 20)
+            if len(prio) > nprio:
+                prio = [prio[int(round(i * (len(prio) - 1) / (nprio - 1)))] for i in range(nprio)]
+            rest = [k for k in range(len(ints)) if k not in prio]
+            if len(rest) > nrest:
+                rest = [rest[int(round(i * (len(rest) - 1) / (nrest - 1)))] for i in range(nrest)]
+            idxs = sorted(set(prio) | set(rest))
+            m = ints[ctx.choice(idxs, label="integer-field")]
+            v = int(m.group(0))
+            how = ctx.choice(["minus-2", "plus-2", "times-10"], label="how")
+            nv = {"minus-2": max(0, v - 2), "plus-2": v + 2, "times-10": v * 10 + 3}[how]
+            rep = str(nv).rjust(len(m.group(0)))
+            t2 = t2[:m.start()] + rep + t2[m.end():]
         elif fault == "corrupt":
             if not table:
                 return
@@ -380,8 +424,9 @@ def jobs(tier):
         if fmt not in ("json_qcschema",):
             out.append(job("C07", f"binary[{fmt},{fn}]", M, "h_parser", dict(fmt=fmt, fn=fn, many=many, fault="binary", max_lines=ml),
                            budget_s=300, max_validate=3, max_paths=40))
-        for fault in ("truncate-inline", "lines"):
-            out.append(job("C07", f"{fault}[{fmt},{fn}]", M, "h_parser", dict(fmt=fmt, fn=fn, many=many, fault=fault, max_lines=ml),
+        for fault in ("truncate-inline", "lines", "count"):
+            out.append(job("C07", f"{fault}[{fmt},{fn}]", M, "h_parser",
+                           dict(fmt=fmt, fn=fn, many=many, fault=fault, max_lines=max(ml, 400) if fault == "count" else ml),
                            budget_s=300 if tier == "quick" else 3000, max_validate=3, max_paths=1500))
     out.append(job("C07", "parser[twin]", M, "h_parser", dict(fmt="xyz", fn="water_element.xyz", fault="truncate", twin=True),
                    expect="cex", max_validate=0, max_paths=5))
